@@ -1,7 +1,7 @@
 import CstModel.Driver.TextArea
 import CstModel.Model.Serde
 import CstModel.Model.Markers
-import CstModel.Generated.SourceFacts
+import CstModel.Generated.DriverFacts
 namespace Cst.Drv
 
 def showSEv : SEv → String
@@ -72,7 +72,7 @@ def serdeStep (s : DState) : List String → Option (DState × String)
     | [evs, data] =>
       match parseAll parseSEv ((evs.splitOn ",").filter (· ≠ "")), parseAll String.toNat? ((data.splitOn ",").filter (· ≠ "")) with
       | some evs, some data =>
-        match deserialize s.cfg SourceFacts.nIndices evs data with
+        match deserialize s.cfg DriverFacts.nIndices evs data with
         | .err => some (s, "err")
         | .panic => some (s, "panic")
         | .ok (g, c, att) =>
@@ -83,16 +83,16 @@ def serdeStep (s : DState) : List String → Option (DState × String)
     | _ => some (s, "bad-op")
   | ["deser_raw", _, _] => some (s, "err")
   | ["marker", kind, m, ds, dy, rs, ry] =>
-    let F : MarkerFacts := ⟨SourceFacts.nodeSendNeedsDSend, SourceFacts.nodeSendNeedsDSync, SourceFacts.nodeSyncNeedsDSend,
-      SourceFacts.nodeSyncNeedsDSync, SourceFacts.ctorNeedsRSend, SourceFacts.ctorNeedsRSync⟩
+    let F : MarkerFacts := ⟨DriverFacts.nodeSendNeedsDSend, DriverFacts.nodeSendNeedsDSync, DriverFacts.nodeSyncNeedsDSend,
+      DriverFacts.nodeSyncNeedsDSync, DriverFacts.ctorNeedsRSend, DriverFacts.ctorNeedsRSync⟩
     let b (x : String) := x == "1"
     let ok :=
       match kind with
-      | "green" => SourceFacts.greenTokenMarkersUnconditional
+      | "green" => DriverFacts.greenTokenMarkersUnconditional
       | "resolver" => accepted F (m == "sync") (b ds) (b dy) (b rs) (b ry)
-      | "text" => SourceFacts.otherUnsafeMarkerImpls == 0 && textOk F (b ds) (b dy) (b ry)
-      | "textgeneric" => SourceFacts.otherUnsafeMarkerImpls == 0 && textOk F (b ds) (b dy) (b ry)
-      | "kindfree" => kindFreeOk F SourceFacts.nodeMarkersConstrainS (m == "sync") (b ds) (b dy)
+      | "text" => DriverFacts.otherUnsafeMarkerImpls == 0 && textOk F (b ds) (b dy) (b ry)
+      | "textgeneric" => DriverFacts.otherUnsafeMarkerImpls == 0 && textOk F (b ds) (b dy) (b ry)
+      | "kindfree" => kindFreeOk F DriverFacts.nodeMarkersConstrainS (m == "sync") (b ds) (b dy)
       | _ => handleOk F (m == "sync") (b ds) (b dy)
     some (s, if ok then "accept" else "reject")
   | _ => none
